@@ -188,8 +188,22 @@ _ADD_LEVEL3 = {
 }
 for _k, _v in _ADD_LEVEL3.items():
     LEVEL[_k] = LEVEL[_k] + _v
+# ---- after the fourth seeding round (DESIGN.md C12) ----
+_ADD_LEVEL4 = {
+    "C05": " Added: a local alias of an attribute is not advanced/mutated after the attribute was re-bound (stale alias); results of "
+           "copy-on-write calls are used (C09-R6).",
+    "C09": " Added: the result of SearchContext.set()/Query.with_boost()/... is never dropped.",
+    "C11": " Added: every attribute read from a matcher's public methods is bound along the constructor chain that building it runs.",
+    "C12": " Added: a freshly constructed scorer's parameters are not overwritten after its constructor derived bounds from them.",
+    "C15": " Added: no one-shot iterator kept as query state, no mutated mutable default argument.",
+    "C16": " Added: sibling-inferred cache invalidation (every mutator of what a cache is computed from resets it).",
+    "C18": " Added: attribute definedness for every writer front-end.",
+}
+for _k, _v in _ADD_LEVEL4.items():
+    LEVEL[_k] = LEVEL[_k] + _v
 for _k in list(NOTE):
-    NOTE[_k] = NOTE[_k] + (" All rules are invariant under the ten behaviour-preserving whole-tree transformations of tools/robust.py "
-                           "and silent on the 138 confirmed refactorings under benign/ (thorough tier). Independent seeding rounds: an unseen "
-                           "regression was caught in 19/40, 20/60 and 23/60 cases before the rules were strengthened; an unseen refactoring "
-                           "raised a false alarm in 27/80 and 27/57 cases before the machinery was corrected (DESIGN.md C2, C8).")
+    NOTE[_k] = NOTE[_k] + (" All rules are invariant under the behaviour-preserving whole-tree transformations of tools/robust.py "
+                           "and silent on the 198 confirmed refactorings under benign/ (thorough tier). Independent seeding rounds: an unseen "
+                           "regression was caught in 19/40, 20/60, 23/60 and 25/60 cases before the rules were strengthened; an unseen refactoring "
+                           "raised a false alarm in 27/80, 27/57 and 15/60 cases before the machinery was corrected (DESIGN.md C2, C8, C12). The "
+                           "transformations are now 22.")
